@@ -35,6 +35,20 @@ def specific(module, r):
     if module == "Trace_WrapSteps" and r.get("steps"):
         r["steps"][-1]["keys"] = r["steps"][-1]["keys"] + ["zz"]
         return True
+    if module == "Trace_TotalitySteps" and r.get("steps"):
+        r["steps"][-1]["k"] = r["steps"][-1]["k"] + 1
+        return True
+    if module == "Trace_DepthSteps" and r.get("ctx"):
+        r["ctx"][-1]["depth"] = r["ctx"][-1]["depth"] + 1
+        return True
+    if module == "Trace_ArgsSteps" and r.get("steps"):
+        last = r["steps"][-1]
+        if last["vals"]:
+            last["vals"] = last["vals"][:-1]
+            if last.get("keys"):
+                last["keys"] = last["keys"][:-1]
+            return True
+        return False
     if module == "Trace_OptionsFlow" and r.get("obs"):
         r["obs"][0] = ["ne"] if r["obs"][0] != ["ne"] else []
         return True
